@@ -14,6 +14,11 @@ if TYPE_CHECKING:
     from repid.data.protocols import ParametersT, RoutingKeyT
 
 
+def _same_message(one: RoutingKeyT, other: RoutingKeyT) -> bool:
+    # an id is only unique among the messages of one topic and one priority (of the same queue)
+    return (one.id_, one.topic, one.priority) == (other.id_, other.topic, other.priority)
+
+
 class InMemoryMessageBroker(MessageBrokerT):
     CONSUMER_CLASS = _InMemoryConsumer
 
@@ -56,7 +61,7 @@ class InMemoryMessageBroker(MessageBrokerT):
 
         q = self.queues[key.queue]
         for msg in q.processing:
-            if msg.key.id_ == key.id_:
+            if _same_message(msg.key, key):
                 q.processing.remove(msg)
                 q.put_back(msg)
                 break
@@ -69,7 +74,7 @@ class InMemoryMessageBroker(MessageBrokerT):
 
         q = self.queues[key.queue]
         for msg in q.processing:
-            if msg.key.id_ == key.id_:
+            if _same_message(msg.key, key):
                 q.processing.remove(msg)
                 q.taken_by.pop(msg, None)
                 break
@@ -82,7 +87,7 @@ class InMemoryMessageBroker(MessageBrokerT):
 
         q = self.queues[key.queue]
         for msg in q.processing:
-            if msg.key.id_ == key.id_:
+            if _same_message(msg.key, key):
                 q.processing.remove(msg)
                 q.taken_by.pop(msg, None)
                 q.dead.append(msg)
@@ -103,7 +108,7 @@ class InMemoryMessageBroker(MessageBrokerT):
         # can't land after the old message is removed but before the new one is added
         q = self.queues[key.queue]
         for msg in q.processing:
-            if msg.key.id_ == key.id_:
+            if _same_message(msg.key, key):
                 q.processing.remove(msg)
                 q.taken_by.pop(msg, None)
                 break
